@@ -194,7 +194,7 @@ def fill(b, st, decl, with_method=True, after_init=False, method_obj=None):
             X = ocp.state(r, c); b.xsyms.append(X)
             for cc in range(c):
                 for rr in range(r):
-                    b.x.append(X[rr, cc])
+                    b.x.append(X if r * c == 1 else X[rr, cc])
     else:
         for s in decl['states']:
             b.x.append(ocp.state(scale=fl(s['scale'])) if fr(s['scale']) != 1 else ocp.state())
